@@ -793,14 +793,21 @@ func (a *Application) tokenCountHandler(trans translator.RequestTranslator) http
 				"translator", trans.Name(),
 				"error", err.Error())
 
+			// an oversized body is answered like on the messages route
+			status := http.StatusBadRequest
+			var tooLarge *http.MaxBytesError
+			if errors.Is(err, translator.ErrRequestTooLarge) || errors.As(err, &tooLarge) {
+				status = http.StatusRequestEntityTooLarge
+			}
+
 			// Use translator's error format if available
 			if errorWriter, ok := trans.(translator.ErrorWriter); ok {
-				errorWriter.WriteError(w, err, http.StatusBadRequest)
+				errorWriter.WriteError(w, err, status)
 				return
 			}
 
 			// Fallback to generic error
-			http.Error(w, fmt.Sprintf("Token counting failed: %v", err), http.StatusBadRequest)
+			http.Error(w, fmt.Sprintf("Token counting failed: %v", err), status)
 			return
 		}
 
